@@ -174,6 +174,67 @@ def predictions(obj, task):
     return encode(np.concatenate([o.ravel() for o in out]))
 
 
+class Bare:
+    """the wrapped scikit-learn estimator driven directly (no wrapper): fit / partial_fit on the labeled rows of the
+    same calls.  It is the documented meaning of the wrappers ("missing labels are ignored", partial_fit "partially
+    fits the estimator"); its predictions go into the trace (`base`) and TLC compares them with the wrapper's."""
+
+    def __init__(self, est, task):
+        from sklearn.base import clone
+
+        self.proto, self.task = clone(est), task
+        self.obj, self.ok, self.dead = None, False, False
+
+    def step(self, op, X, y, w, use_weights):
+        from sklearn.base import clone
+        from sklearn.utils.validation import has_fit_parameter
+
+        lab = ~np.isnan(np.asarray(y, dtype=float))
+        if op == "Fit" or self.obj is None:
+            self.obj, self.ok, self.dead = clone(self.proto), False, False
+        if self.dead or not lab.any():
+            return
+        kw = {}
+        if use_weights and has_fit_parameter(self.obj, "sample_weight"):
+            kw["sample_weight"] = np.asarray(w, dtype=float)[lab]
+        yy = np.asarray(y)[lab].astype(int) if self.task == "clf" else np.asarray(y, dtype=float)[lab]
+        try:
+            with warnings.catch_warnings():
+                warnings.simplefilter("ignore")
+                if op == "Fit":
+                    self.obj.fit(X[lab], yy, **kw)
+                else:
+                    if self.task == "clf":
+                        kw["classes"] = np.array([0, 1])
+                    self.obj.partial_fit(X[lab], yy, **kw)
+            self.ok = True
+        except Exception:
+            self.ok, self.dead = False, True     # unspecified until the next fit
+
+    def pred(self):
+        """band-encoded predictions, [] when the wrapped estimator has nothing to say"""
+        if not self.ok:
+            return []
+        try:
+            if self.task != "clf":
+                return predictions(self.obj, self.task)
+            with warnings.catch_warnings():
+                warnings.simplefilter("ignore")
+                P = np.asarray(self.obj.predict_proba(PROBES), dtype=float)
+            full = np.zeros((len(PROBES), 2))
+            cls = [int(c) for c in self.obj.classes_]
+            if P.shape[1] == 1:
+                full[:, cls[0]] = 1.0
+            else:
+                for j, c in enumerate(cls):
+                    full[:, c] = P[:, j]
+            if np.isnan(full).any():
+                return []
+            return encode(full.ravel())
+        except Exception:
+            return []
+
+
 def train(obj, op, X, y, w, use_weights):
     with warnings.catch_warnings():
         warnings.simplefilter("ignore")
@@ -368,7 +429,7 @@ def _pair_job(arg):
             pred, raised = raised_outcome(ex, ids), exc_text(ex)
         p, dd = observe(obj, owned, ids)
         events.append({"ev": "Fit", "d": D, "pids": p, "dids": dd, "pred": pred, "ref": pred,
-                       "refcalls": [["Fit", D]], "match": k})
+                       "refcalls": [["Fit", D]], "match": k, "base": []})
         if raised:
             events[-1]["raised"] = raised
     rel = relation_tags(d, e)
